@@ -7,9 +7,10 @@ static void emit_calls(const Sink& s, size_t from) {
     for (size_t i = from; i < s.calls.size(); i++) {
         const Call& c = s.calls[i]; const std::string& h = c.head;
         VH_B; vh_s("e", "W"); VH_C;
-        if (h.compare(0, 11, "-----BEGIN ") == 0 && h.size() > 17) { title = h.substr(11, h.size() - 17); vh_s("c", "begin"); VH_C; vh_s("s", title.c_str()); VH_C; vh_i("len", 0); VH_C; vh_i("tag", -1); VH_C; vh_i("bytes", c.len); }
-        else if (h.compare(0, 9, "-----END ") == 0 && h.size() > 15) { vh_s("c", "end"); VH_C; vh_s("s", h.substr(9, h.size() - 15).c_str()); VH_C; vh_i("len", 0); VH_C; vh_i("tag", -1); VH_C; vh_i("bytes", c.len); }
-        else if (!title.empty() && c.len < 160 && h.find(": ") != std::string::npos && h[h.size() - 1] == '\n' && h.find('\0') == std::string::npos && (isalpha((unsigned char)h[0]))) {
+        bool oneline = c.len < 160 && h.size() == c.len && h.find('\n') == h.size() - 1;      // a text call is exactly one line
+        if (oneline && h.compare(0, 11, "-----BEGIN ") == 0 && h.size() > 17) { title = h.substr(11, h.size() - 17); vh_s("c", "begin"); VH_C; vh_s("s", title.c_str()); VH_C; vh_i("len", 0); VH_C; vh_i("tag", -1); VH_C; vh_i("bytes", c.len); }
+        else if (oneline && h.compare(0, 9, "-----END ") == 0 && h.size() > 15) { vh_s("c", "end"); VH_C; vh_s("s", h.substr(9, h.size() - 15).c_str()); VH_C; vh_i("len", 0); VH_C; vh_i("tag", -1); VH_C; vh_i("bytes", c.len); }
+        else if (oneline && !title.empty() && c.len < 160 && h.find(": ") != std::string::npos && h[h.size() - 1] == '\n' && h.find('\0') == std::string::npos && (isalpha((unsigned char)h[0]))) {
             size_t p = h.find(": "); std::string name = h.substr(0, p), val = h.substr(p + 2, h.size() - p - 3);
             vh_s("c", "prop"); VH_C; vh_s("s", (title + "." + name).c_str()); VH_C; vh_i("len", 0); VH_C; vh_i("tag", -1); VH_C; vh_i("bytes", c.len); VH_C;
             vh_i("iv", strtol(val.c_str(), NULL, 10)); VH_C; dbl("dv", (double)strtold(val.c_str(), NULL));       // the value as the reader parses it
